@@ -31,8 +31,7 @@ def worker_env(env_spec):
   env["PYTHONHASHSEED"] = "0"
   env["PYTHONPATH"] = core.VERIF_DIR + os.pathsep + core.REPO_DIR
   devices = int(env_spec.get("devices", 1))
-  flags = ["--xla_cpu_multi_thread_eigen=false",
-           "intra_op_parallelism_threads=1"]
+  flags = ["--xla_cpu_multi_thread_eigen=false"]
   if devices > 1:
     flags.append(f"--xla_force_host_platform_device_count={devices}")
   env["XLA_FLAGS"] = " ".join(flags)
